@@ -397,7 +397,7 @@ class Evaluator:
                 return _strfn(getattr(base, n.attr))
             if isinstance(base, _re.Match) and n.attr in ("group", "groups"):
                 return getattr(base, n.attr)
-            if isinstance(base, slice) and n.attr in ("start", "stop", "step"):
+            if isinstance(base, (slice, range)) and n.attr in ("start", "stop", "step"):
                 return getattr(base, n.attr)
             if isinstance(base, slice) and n.attr == "indices":
                 return lambda size: base.indices(size) if isinstance(size, int) else (_ for _ in ()).throw(Undecided("indices"))
@@ -416,7 +416,7 @@ class Evaluator:
             out: List[Any] = []
             for e in n.elts:
                 if isinstance(e, ast.Starred):
-                    out.extend(self.eval(e.value, env))
+                    out.extend(self.iterate(self.eval(e.value, env)))  # unpacking walks (and exhausts) an iterator
                 else:
                     out.append(self.eval(e, env))
             return out if isinstance(n, ast.List) else tuple(out)
@@ -429,7 +429,7 @@ class Evaluator:
                 if m is not None:
                     return m()
                 if isinstance(v, bool):
-                    raise Undecided("-bool")
+                    return -int(v)
                 if isinstance(v, KInt):
                     return KInt(-int(v), v.kind)
                 return -v
@@ -442,8 +442,8 @@ class Evaluator:
                 f = self.funcs.get("__invert__")
                 if f:
                     return f(v)
-                if isinstance(v, int) and not isinstance(v, (bool, KInt)):
-                    return ~v
+                if isinstance(v, int) and not isinstance(v, KInt):
+                    return ~int(v)  # on a Python bool too: ~True is -2, not False
             if isinstance(n.op, ast.UAdd) and isinstance(v, (int, float)) and not isinstance(v, bool):
                 return v
             raise Undecided(f"unary {norm(n)}")
@@ -821,6 +821,9 @@ class Evaluator:
             return {ast.Sub: lambda: a - b, ast.BitOr: lambda: a | b, ast.BitAnd: lambda: a & b, ast.BitXor: lambda: a ^ b}[type(op)]()
         if isinstance(op, ast.Add) and isinstance(a, list) and isinstance(b, list):
             return list(a) + list(b)  # a kind-qualified list joined with a plain one: the qualifier is dropped
+        if isinstance(op, ast.Add) and isinstance(a, (list, tuple, str)) and isinstance(b, (list, tuple, str)) and not (
+                isinstance(a, type(b)) or isinstance(b, type(a))):
+            raise Raised(f"TypeError(can only concatenate {type(a).__name__} (not \"{type(b).__name__}\") to {type(a).__name__})")
         num = lambda x: isinstance(x, int) and not isinstance(x, bool)  # noqa: E731
         if (isinstance(a, float) or isinstance(b, float)) and all(isinstance(x, (int, float)) and not isinstance(x, bool) for x in (a, b)):
             try:
@@ -907,6 +910,11 @@ class Evaluator:
                 r = a is b
             return r if isinstance(op, ast.Is) else not r
         if isinstance(op, (ast.In, ast.NotIn)):
+            if isinstance(b, OneShot):
+                # `x in generator` advances it: up to and including the first match, or to the end
+                hit = next((k for k, y in enumerate(b) if (y == a) is True), None)
+                del b[: (hit + 1) if hit is not None else len(b)]
+                return (hit is not None) if isinstance(op, ast.In) else (hit is None)
             if isinstance(b, (list, tuple, set, dict, str, range)):
                 r = any((x == a) is True for x in (b if not isinstance(b, dict) else b.keys())) if not isinstance(b, str) else (a in b)
                 return r if isinstance(op, ast.In) else not r
@@ -969,8 +977,10 @@ class Evaluator:
             return set(self.iterate(self.eval(n.args[0], env))) if n.args else set()
         if d in ("list", "tuple", "iter") and len(n.args) == 1 and not n.keywords:
             v = self.eval(n.args[0], env)
+            if d == "iter" and isinstance(v, OneShot):
+                return v  # iter(iterator) is the iterator itself
             vs = self.iterate(v)
-            return tuple(vs) if d == "tuple" else list(vs)
+            return tuple(vs) if d == "tuple" else (OneShot(vs) if d == "iter" else list(vs))
         if d == "super" and "__super__" in self.funcs:
             return self.funcs["__super__"](env.get("__self__"), env.get("__owner__"))
         f = None
@@ -1288,7 +1298,7 @@ _EXC_PARENTS = {"IndexError": ("LookupError",), "KeyError": ("LookupError",), "Z
                 "JSONDecodeError": ("ValueError",), "StopIteration": (), "Z3Exception": ()}
 
 _CONSUMERS = {"list", "tuple", "set", "frozenset", "sorted", "sum", "min", "max", "any", "all", "enumerate", "zip", "map", "filter", "dict",
-              "itertools.chain", "itertools.chain.from_iterable", "chain.from_iterable", "math.prod", "prod", "functools.reduce", "reduce", "deque", "collections.deque", "Counter", "collections.Counter"}
+              "itertools.chain", "itertools.chain.from_iterable", "chain.from_iterable", "itertools.product", "itertools.combinations", "itertools.permutations", "itertools.pairwise", "pairwise", "iter", "math.prod", "prod", "functools.reduce", "reduce", "deque", "collections.deque", "Counter", "collections.Counter"}
 _ITER_BUILTINS = {"enumerate", "zip", "map", "sum", "all", "any", "reversed", "min", "max", "sorted", "set", "itertools.chain", "itertools.chain.from_iterable", "chain.from_iterable"}
 
 _SAFE_METHODS = {
@@ -1474,6 +1484,13 @@ def _base_repr(v: Any, base: Any) -> str:
     return ("-" if neg else "") + out
 
 
+def _zip(xs: Any, strict: bool = False) -> List[Any]:
+    ls = [list(x) for x in xs]
+    if strict and len({len(l) for l in ls}) > 1:
+        raise Raised("ValueError(zip() arguments have different lengths)")
+    return [tuple(t) for t in zip(*ls)]
+
+
 def _filter(f: Any, xs: Any) -> List[Any]:
     out = []
     for x in xs:
@@ -1494,11 +1511,11 @@ BUILTINS: Dict[str, Callable[..., Any]] = {
     "range": _krange,
     "list": lambda x=(): list(x),
     "tuple": lambda x=(): tuple(x),
-    "map": lambda f, *xs: [f(*t) for t in zip(*xs)],
-    "zip": lambda *xs: [tuple(t) for t in zip(*xs)],
-    "filter": lambda f, xs: _filter(f, xs),
-    "enumerate": lambda xs, start=0: [(i, x) for i, x in enumerate(xs, start)],
-    "reversed": lambda xs: list(reversed(xs)),
+    "map": lambda f, *xs: OneShot([f(*t) for t in zip(*xs)]),
+    "zip": lambda *xs, strict=False: OneShot(_zip(xs, strict)),
+    "filter": lambda f, xs: OneShot(_filter(f, xs)),
+    "enumerate": lambda xs, start=0: OneShot([(i, x) for i, x in enumerate(xs, start)]),
+    "reversed": lambda xs: OneShot(reversed(xs)),
     "sum": _sum,
     "min": _kminmax(min),
     "max": _kminmax(max),
@@ -1541,14 +1558,16 @@ BUILTINS: Dict[str, Callable[..., Any]] = {
     "deepcopy": lambda x: __import__("copy").deepcopy(x) if _plain(x) or isinstance(x, (list, tuple, dict)) else (_ for _ in ()).throw(Undecided("deepcopy")),
     "copy.deepcopy": lambda x: __import__("copy").deepcopy(x),
     "copy.copy": lambda x: __import__("copy").copy(x),
-    "iter": lambda x: list(x),
-    "itertools.chain": lambda *xs: [y for x in xs for y in x],
-    "itertools.chain.from_iterable": lambda xs: [y for x in xs for y in x],
-    "chain.from_iterable": lambda xs: [y for x in xs for y in x],
+    "iter": lambda x: x if isinstance(x, OneShot) else OneShot(x),
+    "itertools.chain": lambda *xs: OneShot([y for x in xs for y in x]),
+    "itertools.chain.from_iterable": lambda xs: OneShot([y for x in xs for y in x]),
+    "chain.from_iterable": lambda xs: OneShot([y for x in xs for y in x]),
     "math.gcd": lambda *a: __import__("math").gcd(*a),
-    "itertools.product": lambda *xs, repeat=1: [tuple(t) for t in itertools.product(*[list(x) for x in xs], repeat=repeat)],
-    "itertools.combinations": lambda xs, r: [tuple(t) for t in itertools.combinations(list(xs), r)],
-    "itertools.permutations": lambda xs, r=None: [tuple(t) for t in itertools.permutations(list(xs), r)],
+    "itertools.product": lambda *xs, repeat=1: OneShot([tuple(t) for t in itertools.product(*[list(x) for x in xs], repeat=repeat)]),
+    "itertools.combinations": lambda xs, r: OneShot([tuple(t) for t in itertools.combinations(list(xs), r)]),
+    "itertools.pairwise": lambda xs: OneShot((lambda l: list(zip(l, l[1:])))(list(xs))),
+    "pairwise": lambda xs: OneShot((lambda l: list(zip(l, l[1:])))(list(xs))),
+    "itertools.permutations": lambda xs, r=None: OneShot([tuple(t) for t in itertools.permutations(list(xs), r)]),
     "itertools.accumulate": lambda xs: (_ for _ in ()).throw(Undecided("itertools.accumulate")),
     "product": lambda *xs, repeat=1: [tuple(t) for t in itertools.product(*[list(x) for x in xs], repeat=repeat)],
     "combinations": lambda xs, r: [tuple(t) for t in itertools.combinations(list(xs), r)],
